@@ -1,4 +1,5 @@
 import DclabModel.Lemmas.Hier
+import DclabModel.Lemmas.HierCache
 /-!
 # C04 — A hierarchy child is exactly the filtered view of its parent
 
@@ -26,6 +27,16 @@ member does), in any interleaving, any depth.
    (`stale_box_witness` for the old comparison).
 5. `narrow_rootIds_witness`: root indices are unbounded in the model; a bounded-width `_root_ids`
    wraps and names other events.
+6. (session 4, model `Model/HierCache.lean`: `ChildScalar._array` filled at the first read,
+   `_ufunc_attrs`, `config["calculation"]`, root data that change)
+   `scalar_feature_is_view`, `scalar_feature_is_selection_of_parent`: after a refresh from the
+   youngest member a scalar read at any member returns the composed selection of the root's
+   *current* data — every history of edits, partial refreshes, reads, summary reads, root data and
+   configuration changes; `summary_is_fold_of_reported_array` (every reachable state),
+   `summary_after_rejuvenate`: reported min/max/mean = fold over the current view;
+   `calculation_after_rejuvenate`; `read_is_frozen`, `stale_member_mixed_witness`: what a member
+   below a partial refresh shows (features frozen at their first read, other features and n-d
+   data current, `len` old — mutually inconsistent until its own refresh).
 -/
 namespace DclabModel.C04
 open DclabModel.Hier
@@ -278,5 +289,158 @@ theorem narrow_rootIds_witness :
     (retrieveSnap { c with rootIds := c.ev.map (· % 256) }).manRoot = [34] ∧
       (retrieveSnap { c with rootIds := c.ev }).manRoot = [290] := by
   decide
+
+/-! ## 6. lazily filled caches: scalar arrays, summaries, calculation section
+
+`ChildScalar._array` is filled at the first read after the member's refresh, `_ufunc_attrs`
+(min/max/mean) at the first use; `apply_filter` drops both (`_events.clear()`) and copies the
+parent's `config["calculation"]`.  Histories (`XOp`): all operations of sections 2–4, changes of
+the root's data (`set_temporary_feature` on the root, recomputed ancillary features), changes of
+the root's calculation section, array reads and summary reads at any member at any time. -/
+section caches
+open DclabModel.HierCache
+
+theorem scalar_view_after_refresh (D : Data) (x : X) (hx : XInv x) (k f : Nat)
+    (hk : k < x.s.length) :
+    readVal (xstep D x (.base .rejuv)) k f =
+      viewVals (col x f) (allsFrom (xstep D x (.base .rejuv)).s k) := by
+  have hl := hx.len
+  simp only [readVal, readAt, xstep, refreshPos, List.take_zero, List.nil_append, List.drop_zero,
+    col]
+  apply readArr_cleared
+  · exact cleared_drop k _ (cleared_auxApply x.a)
+  · simp only [allsFrom, List.length_drop, List.length_map, length_auxApply, length_step]
+    omega
+
+/-- theorem 2 for lazily cached scalar features, with root data that change: after a refresh from
+the youngest member, a read at member `k` (0 = youngest … `d` = root) returns the root's current
+data selected by the `filter.all` arrays of all ancestors — whatever was read, cached, edited or
+partially refreshed before -/
+theorem scalar_feature_is_view (D : Data) (d : Nat) (cols : List (List Int)) (cc : Int)
+    (h : List XOp) (k f : Nat) (hk : k ≤ d) :
+    let x := xrun D (xinit D d cols cc) (h ++ [.base .rejuv])
+    readVal x k f = viewVals (col x f) (allsFrom x.s k) := by
+  intro x
+  have hx : XInv (xrun D (xinit D d cols cc) h) := xinv_run D h _ (xinv_init D d cols cc)
+  have hlen : (xrun D (xinit D d cols cc) h).s.length = d + 1 := by
+    rw [← hx.len]
+    have : ∀ (h : List XOp) (y : X), XInv y → (xrun D y h).a.length = y.a.length := by
+      intro h
+      induction h with
+      | nil => intro y _; rfl
+      | cons op h ih =>
+        intro y hy
+        have h1 := xinv_step D y op hy
+        have := ih _ h1
+        simp only [xrun, List.foldl_cons] at this ⊢
+        rw [this, h1.len, hy.len]
+        cases op <;> simp [xstep, length_step]
+    rw [this h _ (xinv_init D d cols cc)]
+    simp [xinit]
+  have := scalar_view_after_refresh D _ hx k f (by omega)
+  simpa only [x, xrun, List.foldl_append, List.foldl_cons, List.foldl_nil, col, xstep] using this
+
+/-- the literal statement of the property: the child's feature is the parent's feature restricted
+to the events the parent's filter selects, in order -/
+theorem view_is_selection_of_parent (c : List Int) (pf : List Bool) (rest : List (List Bool)) :
+    viewVals c (pf :: rest) = sel pf (viewVals c rest) := rfl
+
+/-- `min()/max()/mean()` of a child feature always are the folds of the array the same member
+reports at that moment — in every reachable state, whatever is cached -/
+theorem summary_is_fold_of_reported_array (D : Data) (d : Nat) (cols : List (List Int)) (cc : Int)
+    (h : List XOp) (k f u : Nat) :
+    let x := xrun D (xinit D d cols cc) h
+    summVal x k f u = ufn u (readVal x k f) := by
+  intro x
+  have hx : XInv x := xinv_run D h _ (xinv_init D d cols cc)
+  exact summArr_eq _ _ _ _ _ (fun a ha => hx.uf a (List.mem_of_mem_drop ha))
+
+/-- reported summary = fold over the current view, after a refresh from the youngest member -/
+theorem summary_after_rejuvenate (D : Data) (d : Nat) (cols : List (List Int)) (cc : Int)
+    (h : List XOp) (k f u : Nat) (hk : k ≤ d) :
+    let x := xrun D (xinit D d cols cc) (h ++ [.base .rejuv])
+    summVal x k f u = ufn u (viewVals (col x f) (allsFrom x.s k)) := by
+  intro x
+  have h1 := summary_is_fold_of_reported_array D d cols cc (h ++ [.base .rejuv]) k f u
+  have h2 := scalar_feature_is_view D d cols cc h k f hk
+  simp only at h1 h2
+  rw [h1, h2]
+
+/-- after a refresh from the youngest member every member carries the root's calculation section -/
+theorem calculation_after_rejuvenate (D : Data) (d : Nat) (cols : List (List Int)) (cc : Int)
+    (h : List XOp) :
+    let x := xrun D (xinit D d cols cc) h
+    ∀ a ∈ (xstep D x (.base .rejuv)).a, a.ccfg = lastCalc x.a := by
+  intro x a ha
+  simp only [xstep, refreshPos, List.take_zero, List.nil_append, List.drop_zero] at ha
+  rw [cleared_ccfg _ (cleared_auxApply x.a) a ha, lastCalc_auxApply]
+
+/-- reading fills the cache and a second read returns the same array -/
+theorem readArr_idem (c : List Int) (f : Nat) (alls : List (List Bool)) (as : List Aux) :
+    (readArr c f alls (readArr c f alls as).2).1 = (readArr c f alls as).1 := by
+  match alls, as with
+  | [], as => simp [readArr]
+  | _ :: _, [] => simp [readArr]
+  | pf :: alls, a :: as =>
+    cases hv : (a.fc f).arr with
+    | some v => simp [readArr, hv]
+    | none => simp [readArr, hv, Aux.setArr]
+
+/-! ### B3: what a member below a partial refresh shows
+
+Each scalar feature of a member is frozen at its first read after the member's own refresh
+(`read_is_frozen`: reading again returns the same array; `apply_filter` of the member itself is the
+only operation that empties `FC.arr`).  Features that were not read yet are computed from the
+parent's *current* state, n-d features always are, `len()` is the cached old count.  So a stale
+member can show different event sets in different features: -/
+
+theorem read_is_frozen (D : Data) (x : X) (k f : Nat) :
+    readVal (xstep D x (.read k f)) k f = readVal x k f := by
+  simp only [readVal, readAt, xstep, col]
+  by_cases hk : k ≤ x.a.length
+  · have hd : (x.a.take k ++ (readArr (x.cols.getD f []) f (allsFrom x.s k) (x.a.drop k)).2).drop k
+        = (readArr (x.cols.getD f []) f (allsFrom x.s k) (x.a.drop k)).2 :=
+      List.drop_left' (by simp only [List.length_take]; omega)
+    rw [hd]
+    exact readArr_idem _ _ _ _
+  · have h0 : x.a.drop k = [] := List.drop_eq_nil_of_le (by omega)
+    have h1 : ∀ alls : List (List Bool), readArr (x.cols.getD f []) f alls [] =
+        (x.cols.getD f [], []) := by
+      intro alls; cases alls <;> rfl
+    simp only [h0, h1, List.append_nil]
+    have h2 : (x.a.take k).drop k = [] := List.drop_eq_nil_of_le (by simp only [List.length_take]; omega)
+    rw [h2, h1]
+
+/-- slots 0 and 1 both hold the identity feature (root index) -/
+def cols0 : List (List Int) :=
+  [[0, 1, 2, 3, 4, 5, 6, 7, 8, 9, 10, 11], [0, 1, 2, 3, 4, 5, 6, 7, 8, 9, 10, 11]]
+
+/-- depth 2: L2 reads feature 0, the root window becomes 2..7, only L1 is refreshed -/
+def hx0 : List XOp := [.read 0 0, .base (.setRange 2 0 2 7), .base (.rejuvAt 1)]
+
+/-- the stale member L2 shows all 12 events in feature 0 (frozen), root events 2..7 in feature 1
+(first read, through the refreshed parent) and reports 12 events -/
+theorem stale_member_mixed_witness :
+    let x := xrun D0 (xinit D0 2 cols0 0) hx0
+    readVal x 0 0 = [0, 1, 2, 3, 4, 5, 6, 7, 8, 9, 10, 11] ∧ readVal x 0 1 = [2, 3, 4, 5, 6, 7] ∧
+      x.s.head?.map (·.len) = some 12 := by
+  decide +kernel
+
+/-- non-vacuity: after its own refresh both features show root events 2..7; min, max and the
+numerator of mean are those of the view -/
+example :
+    let x := xrun D0 (xinit D0 2 cols0 0) (hx0 ++ [.summ 0 0 1, .base .rejuv])
+    readVal x 0 0 = [2, 3, 4, 5, 6, 7] ∧ readVal x 0 1 = [2, 3, 4, 5, 6, 7] ∧
+      summVal x 0 0 0 = some 2 ∧ summVal x 0 0 1 = some 7 ∧ summVal x 0 1 2 = some 27 := by
+  decide +kernel
+
+/-- a stale summary: `max()` asked while stale is the fold of the frozen array (11), and stays
+cached; root data that change afterwards do not show either -/
+example :
+    let x := xrun D0 (xinit D0 2 cols0 0) (hx0 ++ [.summ 0 0 1, .setCol 0 [5, 5, 5, 5, 5, 5, 5, 5, 5, 5, 5, 50]])
+    summVal x 0 0 1 = some 11 ∧ summVal x 2 0 1 = some 50 := by
+  decide +kernel
+
+end caches
 
 end DclabModel.C04
